@@ -35,6 +35,8 @@ def props_of(func, clause, kind, explicit=None):
         return {"C07"}
     if kind == "frame-static":
         return {"C19"}
+    if kind == "joint":
+        return {"C11"}
     if f.startswith("_messages") or f.startswith("specs.sess"):
         if kind == "raises-unexpected":
             return {"C05"}
@@ -199,6 +201,21 @@ def run_property(pid, tier):
             by_name.setdefault(o["name"], []).append(o)
         func_rows.append({"function": "pyvc.frames.analyse (all repository modules)", "obligations": sum(1 for o in instances if o["kind"] == "frame-static"),
                           "discharged": sum(1 for o in instances if o["kind"] == "frame-static" and o["status"] == "proved"), "seconds": round(time.time() - t1, 2)})
+    # ---- contract-level joint invariant (C11): transition relations derived from the proved L3 contracts
+    if reg.get("joint"):
+        from pyvc import joint
+        t1 = time.time()
+        try:
+            jobls = joint.run(os.environ.get("SANSLDAP_SRC"), 20000 if tier == "quick" else 60000)
+        except Exception as e:
+            jobls = []
+            errors.append({"function": "pyvc.joint", "error": f"{type(e).__name__}: {e}"[:600], "kind": "crash"})
+        for o in jobls:
+            instances.append(o)
+            solver_s += o["time"]
+            by_name.setdefault(o["name"], []).append(o)
+        func_rows.append({"function": "pyvc.joint.run (joint invariant over the L3 contracts of _session.py)", "obligations": len(jobls),
+                          "discharged": sum(1 for o in jobls if o["status"] == "proved"), "seconds": round(time.time() - t1, 2)})
     proved_names = sorted(n for n, os_ in by_name.items() if all(o["status"] == "proved" for o in os_))
     if update_baseline:
         baseline_all[pid] = proved_names
